@@ -116,16 +116,18 @@ def generate():
     def wrapper_try():
         w = astlib.find_func(astlib.find_class(astlib.module("klongpy/types.py"), "KGFnWrapper"), "__call__")
         ifs = [n for n in astlib.body_no_doc(w) if isinstance(n, ast.If) and ast.unparse(n.test) == "self._sym is not None"]
-        if len(ifs) != 1 or len(ifs[0].body) != 1 or not isinstance(ifs[0].body[0], ast.Try):
-            raise ShapeError("KGFnWrapper.__call__: `if self._sym is not None:` holding one try expected")
+        if len(ifs) != 1 or not ifs[0].body or not isinstance(ifs[0].body[0], ast.Try) or len(ifs[0].body) > 2 or \
+                any(isinstance(n, ast.Try) for st in ifs[0].body[1:] for n in ast.walk(st)):
+            raise ShapeError("KGFnWrapper.__call__: `if self._sym is not None:` starting with its only try expected")
         t = ifs[0].body[0]
         if t.finalbody or t.orelse:
             raise ShapeError("KGFnWrapper.__call__: try with else/finally")
         call_inside = any(astlib.calls_in(st, "call") for st in t.body)
         names = set()
         for h in t.handlers:
-            if [ast.unparse(x) for x in h.body if not isinstance(x, ast.Expr) or not isinstance(getattr(x, "value", None), ast.Constant)] != ["pass"]:
-                raise ShapeError("KGFnWrapper.__call__: except body is not `pass`")
+            if [ast.unparse(x) for x in h.body if not isinstance(x, ast.Expr) or not isinstance(getattr(x, "value", None), ast.Constant)] \
+                    not in (["pass"], ["current = None"]):
+                raise ShapeError("KGFnWrapper.__call__: except body is neither `pass` nor `current = None`")
             if h.type is None:
                 names.add("*")
             elif isinstance(h.type, ast.Tuple):
